@@ -87,6 +87,18 @@ class Check:
         what = what if len(str(what)) <= 600 else str(what)[:600] + " ..."
         self.findings.append(Finding(clause, key, what, case, kind, obligation, solver, reproduced))
 
+    def _second_solver(self):
+        """thorough tier: quantifier-free obligations discharged by z3 and re-checked with cvc5 1.0.3"""
+        st = [o.meta.get("cvc5") for o in self.obligs if getattr(o, "meta", None) and o.meta.get("cvc5")]
+        if not st:
+            return {"cvc5_rechecked": 0}
+        bad = [o.id for o in self.obligs if getattr(o, "meta", None) and o.meta.get("cvc5") == "sat"]
+        for b in bad:
+            if b not in self.undecided:
+                self.undecided.append(b)
+                self.notes.append(f"solver disagreement on {b}: z3 unsat, cvc5 sat")
+        return {"cvc5_rechecked": len(st), "cvc5_unsat": st.count("unsat"), "cvc5_unknown_or_timeout": st.count("unknown"), "cvc5_disagrees": bad}
+
     def _obligation_samples(self, n=3):
         """a few of the obligations this run discharged, written out: id, kind, back end, solver time, number of hypotheses, goal"""
         out = []
@@ -184,7 +196,7 @@ class Check:
             "exhaustive": bool(self.bounded.get("exhaustive")),
             "samples": (self.samples[:12] + self._obligation_samples()) or ["(no samples recorded)"],
             "explanation": self.extra.get("explanation", ""),
-            "functions_under_contract": self.functions, "callee_contracts_assumed_at_call_sites": sorted(self.callee_contracts),
+            "second_solver": self._second_solver(), "functions_under_contract": self.functions, "callee_contracts_assumed_at_call_sites": sorted(self.callee_contracts),
             "obligations_by_kind": by_kind, "by_backend": by_backend,
             "solver_time_s": {"total": round(stime, 3), "max": round(slow.time, 3) if slow else 0, "slowest": slow.id if slow else None},
             "undischarged": [{"id": o.id, "status": o.status, "known_finding": bool(o.meta.get("known"))} for o in self.obligs if o.status != "unsat"][:50],
